@@ -8,6 +8,7 @@ import (
 	"fmt"
 	"io"
 	"math/big"
+	"runtime"
 	"sync"
 	"syscall"
 
@@ -226,6 +227,16 @@ func runC09(r *mon.Run) {
 		// a reader that answers (0, nil) many times before every chunk
 		same(&fixedReader{data: entropy, chunk: gen.Pick(rng, 0, 1, 11, 31), stalls: gen.Pick(rng, 1, 3, 99, 100, 101, 150, 300, 1000)}, "stalling ((0, nil) reads before every chunk)")
 		w.Class("c09:reader:stalls")
+		if i%4 == 3 {
+			// a key object that nobody references after the call (SignRaw: no self-verification
+			// keeps it alive), and garbage collections - finalizers included - during the read
+			one := mustPriv(d)
+			lr, ls, v, err := one.SignRaw(&fixedReader{data: entropy, onRead: func() { runtime.GC(); runtime.GC(); runtime.Gosched(); runtime.GC() }}, dig)
+			w.Class("c09:reader:one-shot-key+gc")
+			if err != nil || bigFromScalar(lr).Cmp(r0) != 0 || bigFromScalar(ls).Cmp(s0) != 0 || v != v0 {
+				w.Fail("c09/reader:one-shot-key+gc", fmt.Sprintf("SignRaw with a key object that is not used afterwards, collections running during the entropy read: err=%v, a different signature than with a key that stays referenced", err), det...)
+			}
+		}
 		if i%4 == 1 {
 			same(&fixedReader{data: entropy, chunk: gen.Pick(rng, 0, 16), async: true}, "asynchronously filling (buffer written by another goroutine while the caller's stack moves)")
 			w.Class("c09:reader:async-fill+stack-move")
